@@ -11,7 +11,7 @@ RULE = ("multi-epoch fan-out histories (publish / unpublish cycles with changing
 ASSUMPTIONS = ["HLS segment finalisation and TS audio flush at teardown are decided in C10 / C06 (hls.Muxer, Rtmp2MpegtsRemuxer)",
                "removal of empty groups, idle-input disposal and goroutine/descriptor baselines are ServerManager / runtime behaviour: "
                "measured by the C03 harness where possible, not part of this model (partial)",
-               "the stream hook (OnMsg count, OnStop exactly once per input) is checked by the oracle on the implementation only; it is not in the Coq model"]
+               "the stream hook is a modelled consumer: which message every OnMsg carried and the OnStop count per input are compared model == implementation"]
 FULL_OUTPUT = True
 
 
@@ -122,6 +122,8 @@ def gen_cases(tier, rng):
                 h.stop_quick()   # the next input follows at once; then a tick
             else:
                 h.stop()
+            if rng.random() < 0.2:
+                h.pub(rng.choice(["aac", "inter"]))   # a frame handed over after the input was removed: no hook, no recording, nothing cached
             if rng.random() < 0.5:
                 h.describe()
             if rng.random() < 0.3:
@@ -134,8 +136,8 @@ def gen_cases(tier, rng):
 
 
 def split_impl(c, out):
-    """the hook is observed on the implementation only"""
-    return "|".join(p for p in out.split("|") if not p.startswith(("hook=", "popen="))) or "-"
+    """popen= (relay-push sessions still open at the end) is observed on the implementation only"""
+    return "|".join(p for p in out.split("|") if not p.startswith("popen=")) or "-"
 
 
 def nontrivial(c, out):
@@ -189,11 +191,12 @@ def oracle(c, out):
         if len(hk) != nep:
             return (False, "hook created %d times for %d inputs" % (len(hk), nep))
         for ep in range(nep):
-            n, stops = hk[ep][0].split(":")
+            told, stops = ",".join(hk[ep]).split(":")
             if int(stops) != 1:
                 return (False, "hook of input %d told to stop %s times" % (ep, stops))
-            if int(n) != len(per_epoch[ep]):
-                return (False, "hook of input %d saw %s messages, %d published" % (ep, n, len(per_epoch[ep])))
+            told = [] if told == "-" else told.split(",")
+            if told != [str(i) for i in per_epoch[ep]]:
+                return (False, "hook of input %d was told messages %s, published (non-empty) during it: %s" % (ep, told[:16], per_epoch[ep][:16]))
     # push: one session per input, closed with the input, holding only that input's messages
     for cid, k in kinds.items():
         if k == "p":
